@@ -28,6 +28,8 @@ func init() {
 		Run:         runC06,
 		Configs:     []string{"linux/amd64", "darwin/amd64", "windows/amd64"},
 		Mutants: []Mutant{
+			{Name: "ignored-problems-skip-later-directives", File: "lintcmd/lint.go", Rule: "R6.7", KeyPart: "filterIgnored::every-directive-tested-against-every-problem",
+				Old: "\t\t\tdiag := &diagnostics[i]\n\t\t\tif ig.match(*diag) {", New: "\t\t\tdiag := &diagnostics[i]\n\t\t\tif diag.Severity == severityIgnored {\n\t\t\t\tcontinue\n\t\t\t}\n\t\t\tif ig.match(*diag) {"},
 			{Name: "u1000-key-without-package-path", File: "lintcmd/lint.go", Rule: "R6.6", KeyPart: "identifies-object-within-its-package",
 				Old: "\t\t\t\tkey := unusedKey{\n\t\t\t\t\tpkgPath: res.Package.PkgPath,\n\t\t\t\t\tbase:    filepath.Base(obj.Position.Filename),\n\t\t\t\t\tline:    obj.Position.Line,\n\t\t\t\t\tname:    obj.Name,\n\t\t\t\t}\n\t\t\t\tused[key] = true\n", New: "\t\t\t\tkey := unusedKey{\n\t\t\t\t\tbase: filepath.Base(obj.Position.Filename),\n\t\t\t\t\tline: obj.Position.Line,\n\t\t\t\t\tname: obj.Name,\n\t\t\t\t}\n\t\t\t\tused[key] = true\n",
 				More: []Edit{{File: "lintcmd/lint.go", Old: "\t\t\t\t\tkey := unusedKey{\n\t\t\t\t\t\tpkgPath: res.Package.PkgPath,\n", New: "\t\t\t\t\tkey := unusedKey{\n"}}},
@@ -630,6 +632,15 @@ func runC06(c *Ctx) {
 	c.Rule("R6.6", func() {
 		c.Floor("R6.6", 1)
 		unusedKeyObligations(c, c.Func("lintcmd", "(*linter).lint"), false)
+	})
+	// R6.7: the directives of a package arrive in map-iteration order
+	// (ParseDirectives ranges over an ast.CommentMap). The outcome of
+	// filterIgnored must not depend on that order: every directive is tested
+	// against every problem, whatever other directives did before (same
+	// obligation as C10 R10.6).
+	c.Rule("R6.7", func() {
+		c.Floor("R6.7", 1)
+		directivePairObligations(c)
 	})
 }
 
